@@ -7,7 +7,7 @@ from gen import columns as G
 
 ID = "C08"
 LEVEL = "proof"
-LEAN_IMPORTS = ["WM.Props.C08", "WM.Props.C08Field", "WM.Props.C08Iter"]
+LEAN_IMPORTS = ["WM.Props.C08", "WM.Props.C08Field", "WM.Props.C08Iter", "WM.Props.C08Block"]
 THEOREMS = [
     "WM.C08.varbytes_roundtrip", "WM.C08.fixedbytes_roundtrip", "WM.C08.numeric_roundtrip",
     "WM.C08.refbytes_roundtrip", "WM.C08.bit_roundtrip", "WM.C08.bit_roundtrip_cell",
@@ -18,7 +18,7 @@ THEOREMS = [
     "WM.C08.utf8_roundtrip", "WM.C08.text_field_roundtrip", "WM.C08.int_field_roundtrip",
     "WM.C08.float_field_roundtrip", "WM.C08.datetime_field_roundtrip",
     "WM.C08.varbytes_iter", "WM.C08.multi_iter", "WM.C08.fixed_iter", "WM.C08.numeric_iter",
-    "WM.C08.int_sort_key_order",
+    "WM.C08.int_sort_key_order", "WM.C08.cblock_find", "WM.C08.cblock_writer_find",
 ]
 # theorem -> what is missing for the full statement of the property
 PARTIAL = {
@@ -59,6 +59,15 @@ PARTIAL = {
         "int_sort_key_order; ColumnReader.load() (list(self) or array(typecode, self)), BitColumn.__iter__/sort_key and "
         "RefBytes/Pickle/Compressed iteration are not modelled (iter == getitem == load is checked differentially on "
         "the real readers of every type)",
+    "WM.C08.cblock_writer_find":
+        "CompressedBlockColumn: which block random access lands in (the writer's block table is ordered and disjoint, "
+        "_find_block returns the block whose range contains the document, None exactly outside every range). The "
+        "value part of the round trip (every add lies in the range of the block that holds its bytes; _get_block "
+        "slices the concatenation back by the length entries) is not proved: for a document with a value the row is "
+        "compared with the model (cbGet) and Layer S on every run; a document without a value inside a block's range "
+        "raises KeyError in the model and in the code (recorded finding), so `default for rows without a value` does "
+        "not hold for this column type. zlib and the pickled block header are identity parameters; __iter__ is not "
+        "modelled (recorded finding)",
     "WM.C08.bit_roundtrip":
         "one read function for both the in-memory BitSet and the OnDiskBitSet paths (the real code picks by file "
         "size); both real paths are driven by the columns stream",
@@ -68,6 +77,10 @@ RULE = ("column streams: strictly increasing (docnum, value) adds with gaps and 
         "type-code thresholds (value length / total size 255|256, 65535|65536; 255|256|257 distinct values; "
         "65535|65536 in thorough), offsets cutoff {0,1,3,2^15}; non-trivial = the case has a row without a "
         "value (default must be synthesised) or crosses a threshold; distinct = distinct (column config, adds); "
+        "block-structured column (CompressedBlockColumn): block sizes of 0 / a few bytes / 1 KB / 32 KB so that columns "
+        "have 1, 2 and 3+ blocks, every docnum read (block starts and ends, gaps between blocks), also as a sortable "
+        "field behind MultiReader over 1-4 segments with and without the column and through the column copy of an "
+        "optimize; non-trivial (wrapped) = a row without a value or more than one block; "
         "field stream: NUMERIC int (bits 8..64, signed/unsigned, default None/explicit, values at the range limits), "
         "NUMERIC float (bit patterns incl. -0.0, inf, NaN, subnormals), DATETIME (min/max), TEXT/ID/KEYWORD (code points "
         "at every UTF-8 length boundary, non-BMP), utf8decode on mutated byte strings; malformed sub-stream (invalid "
@@ -75,8 +88,12 @@ RULE = ("column streams: strictly increasing (docnum, value) adds with gaps and 
 ASSUMPTIONS = [
     "pickle, zlib and struct packing of floats round-trip (identity parameters of the model)",
     "column regions start at base position 0 in the model; the real readers are also run at non-zero base positions",
-    "no Lean model of CompressedBlockColumn, ClampedNumericColumn (both marked experimental in columns.py and "
-    "defective, see the recorded findings) and StructColumn beyond fixedwidth_roundtrip(_exact): harness-only",
+    "no Lean model of ClampedNumericColumn (marked experimental in columns.py and defective, see the recorded "
+    "findings) and StructColumn beyond fixedwidth_roundtrip(_exact): harness-only. CompressedBlockColumn "
+    "(experimental, recorded findings) is modelled in WM/Model/ColumnsBlock.lean (writer block splitting, _find_block, "
+    "_get_block, __getitem__ incl. the KeyError) and its rows are diffed against the real column on every wrapped "
+    "case; as a sortable field it goes through MultiReader / optimize in the segs stream against multiGet / "
+    "mergeColumnAdds",
     "field-level value conversion: UTF-8 (strict codec semantics), NUMERIC int/float, DATETIME are modelled "
     "(WM/Model/ColumnsField.lean over WM.Numeric) and diffed against fields.py on every run; Decimal scaling, "
     "list-valued arguments and date strings are compared on opaque values by the public-API stream only",
@@ -412,18 +429,39 @@ def stream_wrapped(ctx, n, args=None):
         lines.append("c08 rows %s %d %s" % (G.atom(default), c["doccount"], G.adds_sexp(c["adds"], G.atom)))
     spec = ctx.driver.ask(lines)
     real = ctx.pmap(_real_wrapped, args, chunksize=16)
-    for (c, storage), sp, (r, it) in zip(args, spec, real):
+    # CompressedBlockColumn: the Lean model of the writer's block splitting and the reader's _find_block /
+    # _get_block / __getitem__ (WM/Model/ColumnsBlock.lean), rows only (KeyError included)
+    cb = [i for i, (c, _) in enumerate(args) if c["type"] == "cblock"]
+    cbmodel = dict(zip(cb, ctx.driver.ask(["c08 cblock %d %d %s" % (args[i][0].get("blockbytes", 32 * 1024), args[i][0]["doccount"],
+                                                                   G.adds_sexp(args[i][0]["adds"], G.hexs)) for i in cb])))
+    for idx, ((c, storage), sp, (r, it)) in enumerate(zip(args, spec, real)):
         k = c["type"]
+        if idx in cbmodel and r.startswith("("):
+            nblocks, _, mrows = cbmodel[idx].partition(" ")
+            want = G.lst([x if x.startswith("!") else G.atom(bytes.fromhex(x if x != "-" else "")) for x in mrows.strip("()").split()])
+            ctx.stat("wrapped:cblock-model-rows")
+            if int(nblocks) != _cblock_blocks(c):
+                ctx.divergence("oracle._cblock_blocks", {"adds": repr(c["adds"])[:300], "blockbytes": c.get("blockbytes")},
+                               nblocks, str(_cblock_blocks(c)))
+            if want != r:
+                ctx.divergence("columns.cblock", {"_stream": "wrapped", "_pickle": _pack((c, storage)), "type": k,
+                                                  "adds": [[d, repr(v)[:80]] for d, v in c["adds"]], "doccount": c["doccount"],
+                                                  "blockbytes": c.get("blockbytes"), "storage": storage}, want[:1200], r[:1200])
         gaps = len({d for d, _ in c["adds"]}) < c["doccount"]
-        ctx.case(("wrapped", k, repr(c["adds"]), c["doccount"]), nontrivial=gaps)
+        ctx.case(("wrapped", k, repr(c["adds"]), c["doccount"], c.get("blockbytes")),
+                 nontrivial=gaps or (k == "cblock" and _cblock_blocks(c) > 1))
         ctx.stat("wrapped:type=" + k)
+        if k == "cblock":
+            ctx.stat("wrapped:cblock-blocks=%s" % min(4, _cblock_blocks(c)))
         cj = {"_stream": "wrapped", "_pickle": _pack((c, storage)), "type": k,
-              "adds": [[d, repr(v)] for d, v in c["adds"]], "doccount": c["doccount"], "storage": storage}
+              "adds": [[d, repr(v)[:80]] for d, v in c["adds"]], "doccount": c["doccount"], "storage": storage}
+        if k == "cblock":
+            cj["blockbytes"] = c.get("blockbytes")
         if r != sp:
             sig = "column-roundtrip:%s:row-mismatch" % k
             if k == "clamped" and "AttributeError" in r:
                 sig = "ClampedNumericColumn.Writer.__init__:AttributeError-child-has-no-_typecode"
-            elif k == "cblock" and "!KeyError" in r:
+            elif k == "cblock" and _only_keyerror_gaps(c, sp, r):
                 sig = "CompressedBlockColumn.Reader.__getitem__:KeyError-for-row-without-value-inside-a-block"
             elif k.startswith("float") and _only_minus_zero(sp, r):
                 sig = "NumericColumn.Writer.add:minus-zero-equals-default-and-is-elided"
@@ -433,6 +471,30 @@ def stream_wrapped(ctx, n, args=None):
             ctx.violation(sig, cj, sp[:300], it[:300], "list(reader) != [reader[d] for d in range(n)]")
     if cases:
         ctx.sample({"wrapped_case": {"type": cases[0]["type"], "adds": repr(cases[0]["adds"])[:200]}, "spec": spec[0][:200]})
+
+
+def _cblock_blocks(c):
+    """Number of blocks the CompressedBlockColumn writer emits for the case (a block closes as soon as the
+    pending bytes reach the block size)."""
+    n, pending, open_ = 0, 0, False
+    for _, v in c["adds"]:
+        pending += len(v)
+        open_ = True
+        if pending >= c.get("blockbytes", 32 * 1024):
+            n, pending, open_ = n + 1, 0, False
+    return n + (1 if open_ else 0)
+
+
+def _only_keyerror_gaps(c, spec, real):
+    """The recorded CompressedBlockColumn defect and nothing else: every differing row is a KeyError for a
+    document that has no value and lies between two documents with values; every other row is right."""
+    a, b = spec.strip("()").split(), real.strip("()").split()
+    if len(a) != len(b) or not c["adds"]:
+        return False
+    have = {d for d, _ in c["adds"]}
+    lo, hi = min(have), max(have)
+    diff = [d for d, (x, y) in enumerate(zip(a, b)) if x != y]
+    return bool(diff) and all(b[d] == "!KeyError" and d not in have and lo < d < hi for d in diff)
 
 
 def _only_minus_zero(spec, real):
@@ -569,7 +631,12 @@ def stream_segs(ctx, n, cases=None):
         ctx.case(("segs", repr(c)), nontrivial=len(c["segs"]) > 1 and (nocol or bool(c["deletes"])))
         ctx.stat("segs:kind=" + c["kind"])
         if isinstance(res, str):
-            ctx.violation("segments:index-build:" + res.split(":")[0].replace(" ", "-"), case, "index builds and reads", res,
+            sig = "segments:index-build:" + res.split(":")[0].replace(" ", "-")
+            if (c["kind"].startswith("cblock") and res.startswith("AttributeError") and "'_default'" in res
+                    and any(all(v is None for v in s_) for s_ in c["segs"])):
+                # repaired (findings/C08.json): the column type declared no default for a segment without the column file
+                sig = "CompressedBlockColumn.default_value:AttributeError-no-_default-for-segment-without-the-column"
+            ctx.violation(sig, case, "index builds and reads", res,
                           "building / reading / merging the segments raised")
             continue
         hascols, multi, merged, ids, multi_iter = res
@@ -584,7 +651,11 @@ def stream_segs(ctx, n, cases=None):
                           "rows of the column through a reader over %d segments (has_column %r)" % (len(hascols), hascols))
             continue
         if list(mm[2]) != multi_iter and not any(x.startswith("!") for x in multi):
-            ctx.violation("MultiColumnReader.__iter__:differs-from-getitem", case, " ".join(mm[2]), " ".join(multi_iter),
+            sig = "MultiColumnReader.__iter__:differs-from-getitem"
+            if c["kind"].startswith("cblock") and any(None in s_ and any(v is not None for v in s_) for s_ in c["segs"]):
+                # recorded: CompressedBlockColumn.Reader.__iter__ pads a gap before / after a block with one row too many
+                sig = "ColumnReader.__iter__:differs-from-getitem:cblock"
+            ctx.violation(sig, case, " ".join(mm[2]), " ".join(multi_iter),
                           "list(column_reader) over %d segments (has_column %r)" % (len(hascols), hascols))
             continue
         dels = set(c["deletes"])
@@ -593,7 +664,13 @@ def stream_segs(ctx, n, cases=None):
             ctx.violation("optimize:document-order", case, live_ids, ids, "documents after delete + optimize")
             continue
         if list(mm[1]) != merged:
-            ctx.violation("SegmentWriter.write_per_doc:column-copy", case, " ".join(mm[1]), " ".join(merged),
+            sig = "SegmentWriter.write_per_doc:column-copy"
+            if c["kind"].startswith("cblock") and len(merged) == len(mm[1]) and all(
+                    b == "!KeyError" and a == G.atom(u"") for a, b in zip(mm[1], merged) if a != b):
+                # recorded: after the merge the documents of a segment without values lie inside a block that was
+                # still open when their segment began; every other row is right
+                sig = "CompressedBlockColumn.Reader.__getitem__:KeyError-for-row-without-value-inside-a-block"
+            ctx.violation(sig, case, " ".join(mm[1]), " ".join(merged),
                           "rows of the column after delete %r + optimize" % (c["deletes"],))
 
 
